@@ -668,18 +668,19 @@ Proof.
   destruct (dget x (locals s)) as [v|] eqn:E; [|destruct (holds rho c); reflexivity].
   unfold blk. change (wbc (with_condition s c)) with (wbc s).
   change (scond (with_condition s c)) with (AndC [scond s; c]). unfold wc_var.
-  destruct (nmem x (wbc s)) eqn:Ew.
+  destruct (nmem x (wbc s)) eqn:Ew; cbv iota.
   - rewrite holds_and2. destruct (holds rho c).
     + rewrite andb_true_r. reflexivity.
     + rewrite andb_false_r. rewrite filter_false; auto. intros. apply andb_false_r.
   - destruct (vwc_cases v (AndC [scond s; c])) as [[Ec Ev]|Ev]; rewrite Ev.
     + assert (holds rho (AndC [scond s; c]) = true) as Ht by (rewrite Ec; reflexivity).
       rewrite holds_and2 in Ht. apply andb_prop in Ht. destruct Ht as [_ Ht]. rewrite Ht. reflexivity.
-    + simpl. destruct (holds rho c) eqn:Hc.
-      * apply filter_map_ext. intros b Hb. simpl. split; auto. rewrite holds_and2, Hc, !andb_true_r.
+    + cbn [vbindings]. destruct (holds rho c) eqn:Hc.
+      * apply filter_map_ext. intros b Hb. cbn [bval bcond]. split; auto.
+        rewrite !holds_and2, Hc, !andb_true_r.
         destruct (holds rho (bcond b)) eqn:Hbc; simpl; auto. eapply Himp; eauto.
       * rewrite filter_false; auto. intros b Hb. apply in_map_iff in Hb. destruct Hb as [b0 [Eb _]].
-        subst b. simpl. rewrite holds_and2, Hc, !andb_false_r. reflexivity.
+        subst b. cbn [bval bcond]. rewrite !holds_and2, Hc, !andb_false_r. reflexivity.
 Qed.
 
 (* ---- merge_into ---- *)
@@ -926,13 +927,13 @@ Proof.
     apply Inv_store_lemma; auto. apply from_value_wf.
   - destruct (run p1) as [s0|]; [|discriminate]. destruct (run p2) as [t|]; [|discriminate].
     destruct (load_local t y) as [var|] eqn:El; [|discriminate]. inversion H; subst.
-    apply Inv_store_lemma; auto. eapply load_local_wf; eauto.
+    apply Inv_store_lemma; auto. apply (load_local_wf t y); auto.
   - destruct (run p) as [s0|]; [|discriminate]. inversion H; subst.
     apply Inv_with_condition_lemma; auto.
   - destruct (run p1) as [s0|]; [|discriminate]. destruct (run p2) as [t|]; [|discriminate].
     inversion H; subst. apply Inv_merge_lemma; auto.
   - destruct (run p) as [s0|]; [|discriminate]. inversion H; subst.
-    rewrite merge_none_lemma. auto.
+    destruct s0 as [l c w]. simpl. auto.
 Qed.
 
 Lemma merge_union_run_lemma : forall p q s t rho x,
